@@ -650,6 +650,14 @@ impl<Writer: Write> Mp4Writer<Writer> {
         }
         self.finalized = true;
 
+        // The visual sample entry stores width and height in 16 bits.
+        if video.width > u32::from(u16::MAX) || video.height > u32::from(u16::MAX) {
+            return Err(io::Error::new(
+                io::ErrorKind::InvalidInput,
+                "video dimensions must fit in 16 bits",
+            ));
+        }
+
         let video_config = self
             .video_config
             .clone()
